@@ -32,7 +32,8 @@ CHECKS["C08"] = dict(
     text="diag(A, k, alg) for every offset -n < k < n and trace(A, alg) with Exact(), Auto() and the omitted default executed on every leaf kind "
          "and 26 composite trees with symbolic payloads (structural rules and the real blocked probing exact_diag / get_I_chunk_like, incl. "
          "rule-less operators of size 100..320 around the block size); z3 proves equality with the reference diagonal for all payload values; "
-         "a refusal is accepted only from a structural rule on an off-diagonal",
+         "a refusal is accepted only from a structural rule on an off-diagonal; 20 (quick) / 600 (thorough) seeded random square trees; which "
+         "estimator the automatic default runs is an obligation of its own for sizes up to 3 * 10^5",
     note=_TB + "; the stochastic estimator is not executed here: its selection by the automatic default is itself reported and replayed",
     technique="symbolic execution of the Python source + z3 validity queries on term-DAG equalities; counterexamples replayed on float NumPy")
 _KRY = ("; inputs are produced by an inverse parametrisation (A, v) := (Q T Q^H, s Q e1) that is onto the stated input class for the listed "
@@ -78,9 +79,11 @@ CHECKS["C04"] = dict(
          "the real rule conditions on proxy arguments whose operator kind, declared annotation, dtype class, factors-square flag and algorithm "
          "class are z3 finite-domain variables; for each of 22 dispatch functions and argument patterns every resolver path is explored "
          "(both directions of every branch checked by z3, so the exploration is complete) and the paths ending in Ambiguous / NotFound are "
-         "enumerated into concrete lattice points; every lattice point is cross-validated against the real resolver on real instances",
-    note=_TB + "; 21 operator kinds x 5 annotation options x real/complex x factors-square x admissible algorithm classes; only the resolution step "
-         "(not the selected rule's body) is in scope",
+         "enumerated into concrete lattice points; every lattice point is cross-validated against the real resolver on real instances; below the first "
+         "level: the selected rule is executed on a small real instance of every kind / {none, PSD} / real / algorithm combination and on rule-less "
+         "operators above 10^6 entries (the automatic rules' second dispatch): no call further down may end in a lookup error",
+    note=_TB + "; 21 operator kinds x 5 annotation options x real/complex x factors-square x admissible algorithm classes; what the selected rule computes "
+         "is out of scope, only that every (re-)dispatch resolves",
     technique="symbolic execution of the dispatcher's Python source over z3 finite sorts with complete path enumeration (solver-checked), plus "
               "exhaustive concrete enumeration of the same lattice as translator validation / replay")
 CHECKS["C07"] = dict(
@@ -145,16 +148,20 @@ CHECKS["C16"] = dict(
          "whose small Gram matrix is in Lanczos form: U Sigma V^H == A resp. the best rank-k approximation, U^H U == I, V^H V == I, Sigma a "
          "non-negative Diagonal; pinv(A) @ b / @ B (default, Auto(), LSTSQ(), Identity / ScalarMul / Diagonal / Permutation rules, real A with complex b) "
          "equals V diag(1/sigma) U^H b and satisfies the normal equations, for all parameter values",
-    note=_TB + "; LAPACK svd / eigh are served from the harness' registry (inverse parametrisation); LOBPCG SVD and CG-pinv outside",
+    note=_TB + "; LAPACK svd / eigh are served from the harness' registry (inverse parametrisation); pinv through CG on the normal equations is "
+         "checked up to a relative 1e-9 (z3 inequality; the library's rounding-level regulariser is not part of the property); one concrete 130 x 110 "
+         "Lanczos-SVD case beyond the internal default of 100 steps runs on floats only; LOBPCG SVD outside",
     technique="symbolic execution of the Python source on exact rational-function terms with registered decompositions and an exact least-squares "
               "stand-in; z3 decides residuals and sort path flips; float replay of path seeds")
 CHECKS["C18"] = dict(
-    text="(a) every single operation and a seed-rotated sample of all ordered pairs (thorough: pairs and triples) of a 44-operation alphabet (products on both "
+    text="(a) every single operation and a seed-rotated sample of all ordered pairs (thorough: pairs and triples) of a 57-operation alphabet (products on both "
          "sides, .T/.H, algebra, annotation, indexing, densification, inv / solve, diag / trace, cg with a caller-owned initial guess, lanczos / arnoldi "
          "with caller-owned start vectors, matrix functions, decompositions) executed on a pool of 18 operators built from caller-owned symbolic arrays: "
          "afterwards every caller-owned array is entrywise identical to its snapshot (symbolic arrays alias exactly like ndarrays, so in-place updates "
          "are visible), every operator has the same dense form / annotations and repeating the first call gives the same result; (b) flatten / unflatten "
-         "round trip, leaves == array parameters and leaf substitution for 26 trees, under 6 instantiation histories of the per-class attribute registry",
+         "round trip, leaves == array parameters and leaf substitution for 26 trees, under 6 instantiation histories of the per-class attribute registry; "
+         "(c) algorithm objects are inputs: for 10 (function, algorithm object) pairs the object's fields are unchanged by a call and reusing it on a larger "
+         "operator equals a fresh object (float runs)",
     note=_TB + "; contents of the arrays used by the iterative solvers are concrete (their control flow depends on norms)",
     technique="symbolic execution of the Python source on aliasing-faithful symbolic arrays; entrywise identities decided on exact normal forms / z3; float "
               "replay of path seeds")
@@ -163,7 +170,8 @@ CHECKS["C17"] = dict(
          "uninterpreted): for randn, Hutchinson estimation, diag / trace with Hutch, default start vectors of lanczos / arnoldi / power iteration, Nystrom, SLQ, "
          "randomized SVD and lobpcg, z3 proves the final state term equals s0, no draw happens from a state derived from s0, and two calls with the same key "
          "agree; Hutchinson with symbolic probes: exact on Diagonal operators with Rademacher probes (generators r^2 = 1), E[estimate] == k-th diagonal by "
-         "moment substitution for all symbolic operators n <= 3 and all offsets, and never more than max_iters products",
+         "moment substitution for all symbolic operators n <= 3 and all offsets, and never more than max_iters products (also through the Auto entry point); "
+         "no two draws of one call start from the same generator state; private generators (RandomState(seed), default_rng(seed)) are modelled as their own chains",
     note=_TB + "; statistical quality of the generator and optional-stopping bias are outside; state-machine cases run the routines on the real numbers of a "
          "mirrored private RandomState",
     technique="symbolic state-machine model of the RNG decided by z3 over uninterpreted functions; symbolic execution of the Hutchinson loop on symbolic probes "
@@ -173,8 +181,9 @@ CHECKS["C19"] = dict(
          "Tridiagonal, Permutation executed on shape-symbolic arrays (dimensions are polynomials over positive integer variables): z3 proves for ALL factor sizes and "
          "column counts that every allocation is <= 2 n c + sum n_i^2 while n^2 exceeds that bound; (ii) symbolic execution of the real dispatch resolver proves that "
          "for 12 entry points, every structured kind / annotation / dtype / admissible algorithm, with and without the optional algorithm argument, a structural rule "
-         "(not the dense base case) is selected; (iii) the structural rules run on symbolic payloads with an allocation audit: no array with n^2 or more entries",
-    note=_TB + "; (iii) is at concrete factor sizes (2, 3); wall time and Python-level loops over a dimension (Kernel) are outside",
+         "(not the dense base case) is selected; (iii) the structural rules run on symbolic payloads with an allocation audit: no array with n^2 or more entries, and the same 26 audits plus the "
+         "generic fall-backs (densifying a tall sub-operator, exact probing in blocks) are measured on the real float code with tracemalloc (n = 600 .. 4000)",
+    note=_TB + "; (iii) is at concrete factor sizes (2, 3 symbolically; 20, 30 on floats); wall time and Python-level loops over a dimension (Kernel) are outside",
     technique="shape-symbolic execution of the Python source with z3 (QF_NIA) size bounds; symbolic execution of the dispatcher over z3 finite sorts; "
               "allocation audit during symbolic execution of the structural rules")
 for _p in []:
